@@ -15,7 +15,7 @@ TECH = ("contract-based deductive verification: PyVC (ast -> VC generator over t
 PROPS = {
     "C01": {
         "modules": ["contracts.c01_memory", "contracts.c01_simplememory", "contracts.c01_graph"],
-        "claim_level": "proof",
+        "claim_level": "other",
         "design_ref": "6.1",
         "technique": TECH,
         "clauses_decided": [
@@ -95,7 +95,8 @@ PROPS = {
             "no duplicates, so multiplicities are those of the SPARQL Join; evalutils._minus keeps x iff no y in b is "
             "compatible with x and shares a variable with it (proved: soundness, completeness)",
             "ConditionalOrExpression: TRUE iff some operand's EBV is TRUE (also when another operand errs), an error iff "
-            "none is TRUE and some operand errs, FALSE otherwise (proved, loop invariant over an arbitrary operand "
+            "none is TRUE and some operand errs, FALSE otherwise; ConditionalAndExpression dually: FALSE iff some operand "
+            "is FALSE, an error iff none is FALSE and some errs (proved, loop invariant over an arbitrary operand "
             "collection, EBV external with three outcomes)",
             "FrozenBindings.forget(before, except): keeps exactly the bindings whose variable was unbound before (is None "
             "- a falsy term is a binding), or is in initBindings, or is excepted (proved for an arbitrary variable)",
@@ -108,8 +109,7 @@ PROPS = {
             "equivalence with bottom-up evaluation is a relational property of recursive functions over the algebra "
             "tree - not brought under contract; covered by the bounded differential run against an independent "
             "bottom-up evaluator only",
-            "ConditionalAndExpression (all() over a generator that may raise is outside the PyVC subset), the other "
-            "operators, EBV itself: bounded only",
+            "the other operators (RelationalExpression, arithmetic, built-ins) and EBV itself: bounded only",
         ],
         "explanation": "The algebra primitives that carry multiset semantics and the scoping/error helpers are proved "
                        "against their SPARQL 1.1 definitions; the composition (translator + top-down evaluator) is "
@@ -542,7 +542,7 @@ PROPS = {
     },
     "C17": {
         "modules": ["contracts.c17_store"],
-        "claim_level": "proof",
+        "claim_level": "other",
         "design_ref": "6.17",
         "technique": "contract-based deductive verification: PyVC (ast -> VC generator over the real source) + z3/cvc5; "
                      "bounded stand-in on the real code for the NamespaceManager string code",
